@@ -558,7 +558,7 @@ func (w *enHoldW) Flush() error {
 	return nil
 }
 
-var enWriterKinds = []string{"bytes.Buffer", "plain", "bufio:1", "bufio:16", "bufio:100", "bufio:4096", "bufio:65536", "bufio:1048576", "hold-until-Flush"}
+var enWriterKinds = []string{"bytes.Buffer", "plain", "bufio:1", "bufio:16", "bufio:100", "bufio:4096", "bufio:65536", "bufio:200000", "hold-until-Flush"}
 
 type enObs struct {
 	Out    string            `json:"stdout"`
@@ -1222,11 +1222,12 @@ type enCoord struct {
 	T, Block, Via, Nest, Pos, Sync string
 	Pre                            int
 	Big                            bool
+	pre                            []enSinkUse // the effective output-before (commands replaced by files when the case may not run any)
 }
 
 func (k enCoord) fields() map[string]string {
 	var pre []string
-	for _, su := range enPres[k.Pre] {
+	for _, su := range k.pre {
 		pre = append(pre, su.sink+su.mode)
 	}
 	m := map[string]string{"ending": k.T, "block": k.Block, "via": k.Via, "nest": k.Nest, "position": k.Pos, "sync": k.Sync, "output-before": strings.Join(pre, ",")}
@@ -1237,11 +1238,12 @@ func (k enCoord) fields() map[string]string {
 }
 
 // scenario builds the program of one matrix point; ok=false when the point does not exist (e.g. `return` outside a function).
-func (g *enGen) scenario(k enCoord) (p *enProg, input []string, ok bool) {
+func (g *enGen) scenario(k enCoord) (p *enProg, input []string, eff enCoord, ok bool) {
 	var pre []enSinkUse
 	for _, su := range enPres[k.Pre] {
 		pre = append(pre, g.noCmdSink(su))
 	}
+	defer func() { eff = k; eff.pre = pre }()
 	if g.noCmd && k.Sync == "snapshot" {
 		k.Sync = "fflush-all"
 	}
@@ -1260,7 +1262,7 @@ func (g *enGen) scenario(k enCoord) (p *enProg, input []string, ok bool) {
 		k.Pos == "retval" && !inFunc,
 		k.Nest == "forin" && (k.Pos == "callarg" || k.T == "err:call-depth"),
 		k.Nest == "whileget" && (k.T == "err:write-to-reader" || k.T == "err:read-from-writer" || k.Pos == "callarg" || k.T == "err:call-depth"):
-		return nil, nil, false
+		return nil, nil, k, false
 	}
 	if !isErrExpr {
 		k.Pos = "stmt"
@@ -1552,7 +1554,7 @@ func (g *enGen) scenario(k enCoord) (p *enProg, input []string, ok bool) {
 			}
 		}
 		if pat == nil {
-			return nil, nil, false
+			return nil, nil, k, false
 		}
 		if g.coin(1, 2) {
 			pat = &enE{K: "and", A: &enE{K: "ge", A: &enE{K: "nr"}, B: enC(2)}, B: pat}
@@ -1573,7 +1575,7 @@ func (g *enGen) scenario(k enCoord) (p *enProg, input []string, ok bool) {
 		p.Rules = []enRule{recRule}
 		p.End = [][]*enS{filler("e1"), blockBody}
 	}
-	return p, input, true
+	return p, input, k, true
 }
 
 // ---- the stream ---------------------------------------------------------------------------------------------------------------------
@@ -1618,13 +1620,18 @@ func enCorpus(withCmd bool) []enCoord {
 	var ks []enCoord
 	if withCmd {
 		for _, t := range []string{"err:div0", "err:call-depth", "exit-code", "normal"} {
-			for _, pre := range []int{4, 5, 7} {
+			for _, pre := range []int{4, 5} {
 				for _, blk := range []string{"begin", "end"} {
 					ks = append(ks, enCoord{T: t, Block: blk, Via: "direct", Nest: "plain", Pos: "stmt", Sync: "none", Pre: pre})
 				}
 			}
 		}
 		ks = append(ks, enCoord{T: "err:nf-negative", Block: "rule2", Via: "func", Nest: "plain", Pos: "stmt", Sync: "snapshot", Pre: 8})
+		for _, t := range []string{"normal", "err:div0", "exit"} { // what a child process sees in a file the program is writing
+			for _, pre := range []int{2, 3} {
+				ks = append(ks, enCoord{T: t, Block: "begin", Via: "direct", Nest: "plain", Pos: "stmt", Sync: "snapshot", Pre: pre})
+			}
+		}
 		return ks
 	}
 	for _, t := range []string{"err:div0", "err:regex-match", "err:nf-negative", "err:format-stmt", "err:call-depth", "err:read-from-writer", "err:redirect-open", "exit-code", "normal"} {
@@ -1650,7 +1657,7 @@ func c01Ends(c *vh.Ctx) {
 	skipped := 0
 	// Creating a process costs tens of milliseconds on a loaded machine, a run without one about a millisecond: programs with
 	// commands (`| cat > file`, system snapshots) are a budgeted share of the cases, the rest use files only.
-	spawnBudget, spawnsUsed, cmdCases := c.N(450, 6000), 0, 0
+	spawnBudget, spawnsUsed, cmdCases := c.N(170, 3000), 0, 0
 	build := func(cs *enCase, mk func() (*enProg, []string, bool), forceCmd bool) {
 		g.noCmd = !(forceCmd || (spawnsUsed < spawnBudget && c.Rng.Intn(100) < 7))
 		for {
@@ -1676,8 +1683,12 @@ func c01Ends(c *vh.Ctx) {
 		}
 	}
 	addCoord := func(k enCoord, fam string, forceCmd bool) {
-		cs := &enCase{Family: fam, Coord: k.fields(), Key: "ends:" + k.T}
-		build(cs, func() (*enProg, []string, bool) { return g.scenario(k) }, forceCmd)
+		cs := &enCase{Family: fam, Key: "ends:" + k.T}
+		build(cs, func() (*enProg, []string, bool) {
+			p, input, eff, ok := g.scenario(k)
+			cs.Coord = eff.fields()
+			return p, input, ok
+		}, forceCmd)
 	}
 	for _, k := range enCorpus(true) {
 		addCoord(k, "ends-corpus", true)
@@ -1694,8 +1705,11 @@ func c01Ends(c *vh.Ctx) {
 	reps := c.N(1, 4)
 	for rep := 0; rep < reps; rep++ {
 		for _, t := range enTerminations {
-			for _, b := range enBlocks {
-				for _, v := range enVias {
+			for bi, b := range enBlocks {
+				for vi, v := range enVias {
+					if !c.Thorough() && (bi+vi+rep+int(c.Seed))%3 != 0 {
+						continue
+					}
 					k := rndCoord()
 					k.T, k.Block, k.Via = t, b, v
 					addCoord(k, "ends-matrix", false)
@@ -1703,7 +1717,7 @@ func c01Ends(c *vh.Ctx) {
 			}
 			for pre := range enPres {
 				for _, s := range enSyncs {
-					if !c.Thorough() && (pre+len(s)+rep+int(c.Seed))%2 == 0 {
+					if !c.Thorough() && (pre+len(s)+rep+int(c.Seed))%3 != 0 {
 						continue
 					}
 					k := rndCoord()
@@ -1713,7 +1727,7 @@ func c01Ends(c *vh.Ctx) {
 			}
 			for _, n := range enNests {
 				for _, ps := range enPositions {
-					if !c.Thorough() && (len(n)+len(ps)+rep+int(c.Seed))%2 == 0 {
+					if !c.Thorough() && (len(n)+len(ps)+rep+int(c.Seed))%3 != 0 {
 						continue
 					}
 					k := rndCoord()
@@ -1724,7 +1738,7 @@ func c01Ends(c *vh.Ctx) {
 		}
 	}
 	nDirected := len(cases)
-	for i, n := 0, c.N(1500, 20000); i < n; i++ {
+	for i, n := 0, c.N(700, 12000); i < n; i++ {
 		cs := &enCase{Family: "ends-random", Key: "ends:random"}
 		build(cs, func() (*enProg, []string, bool) { p, input := g.random(); return p, input, true }, false)
 	}
@@ -1770,7 +1784,7 @@ func c01Ends(c *vh.Ctx) {
 		c.Eval("ends\x00"+cs.A+"\x00"+cs.B+"\x00"+cs.Input+"\x00"+cs.WriterA+"\x00"+cs.WriterB+"\x00"+fmt.Sprint(cs.Init), cs.A != cs.B)
 		c.OracleCase()
 		c.Hit("oracle:" + cs.Family)
-		c.Hit("ends:ending:" + cs.Expected.Ending)
+		c.Hit("ends:outcome:" + cs.Expected.Ending)
 		if cs.Expected.Err {
 			c.Hit("ends:error-kind:" + cs.Expected.ErrKind)
 		}
@@ -1778,7 +1792,7 @@ func c01Ends(c *vh.Ctx) {
 		c.Hit("ends:Config.Output:" + cs.WriterB)
 		if cs.Coord != nil {
 			for _, f := range []string{"ending", "block", "via", "nest", "position", "sync", "output-before"} {
-				c.Hit("ends:" + f + ":" + cs.Coord[f])
+				c.Hit("ends:at:" + f + ":" + cs.Coord[f])
 			}
 			if cs.Coord["big"] != "" {
 				c.Hit("ends:big-output")
@@ -1812,7 +1826,7 @@ func c01Ends(c *vh.Ctx) {
 		fail := func(which, what, got string) {
 			cp := *cs
 			cp.Which = which
-			c.Fail(vh.Failure{Kind: "oracle", What: "compiled execution does not leave what direct evaluation of the syntax tree leaves (" + cs.Family + "): " + what,
+			c01Fail(len(cs.A)+len(cs.B), vh.Failure{Kind: "oracle", What: "compiled execution does not leave what direct evaluation of the syntax tree leaves (" + cs.Family + "): " + what,
 				Case: cp, Got: got, Want: enCanonWant(cs.Expected)})
 		}
 		da, db := enDiff(o.a, cs.Expected), enDiff(o.b, cs.Expected)
